@@ -403,7 +403,22 @@ pub fn spec(id: &str) -> Option<Spec> {
     })
 }
 
+/// Sanitizer leg of a check's thorough tier: (sanitizer, number of shards the leg's single worker
+/// pretends to be one of - i.e. the fraction of the quick workload it runs).
+pub fn sanitizer_leg(id: &str) -> Option<(&'static str, usize)> {
+    match id {
+        "C12" => Some(("tsan", 1)),
+        "C09" => Some(("asan", 16)),
+        "C13" => Some(("asan", 16)),
+        _ => None,
+    }
+}
+
 pub fn worker_stack_bytes(id: &str) -> usize {
+    // Sanitizer instrumentation inflates stack frames; stack depth is judged by the normal build.
+    if std::env::var("VERIF_SANITIZER_LEG").is_ok() {
+        return 1024 * MIB;
+    }
     match id {
         // The property is about ordinary nesting on the real tools' main thread.
         "C09" | "C10" => 8 * MIB,
